@@ -17,10 +17,7 @@ import torch
 
 BOX_DTYPES = ["float32", "float64", "float16", "uint8", "int8", "int16", "int32", "int64", "uint16",
               "uint32", "uint64"]
-class Vacuity(RuntimeError):
-    """The harness could not observe anything (never a verdict)."""
-
-
+INSENSITIVE: List[str] = []      # consequence runs that could not observe anything (reported by c15.py)
 TOL = 1e-6          # consequence clause: absolute tolerance on float32 network outputs (see c15.py)
 # tiny networks without normalisation layers; Tanh so that no unit is dead and outputs are sensitive to every input
 NET_MLP = {"hidden_size": [8], "layer_norm": False, "activation": "Tanh"}
@@ -175,9 +172,12 @@ def expected(case: dict) -> List[Tuple[tuple, np.ndarray]]:
 
 
 # ----------------------------------------------------------------------------- comparing
-def cmp_tensor(got, shape, exp) -> Optional[str]:
+def cmp_tensor(got, shape, exp, scalar_box: bool = False) -> Optional[str]:
+    """scalar_box: a rank-0 Box feeds a network with one input feature; (rows,) and (rows, 1) are both accepted."""
     if not isinstance(got, torch.Tensor):
         return "type-" + type(got).__name__
+    if scalar_box and tuple(got.shape) == tuple(shape) + (1,):
+        got = got.squeeze(-1)
     if tuple(got.shape) != tuple(shape):
         return "shape"
     if not got.is_floating_point():
@@ -185,6 +185,10 @@ def cmp_tensor(got, shape, exp) -> Optional[str]:
     if not np.array_equal(got.detach().cpu().numpy().astype(np.float64), exp.astype(np.float64)):
         return "values"
     return None
+
+
+def _scalar_box(sub: dict) -> bool:
+    return sub["k"] == "box" and len(sub["shape"]) == 0
 
 
 def members_of(case: dict, got) -> Optional[list]:
@@ -222,7 +226,7 @@ def compare_prepared(case: dict, got) -> Optional[Tuple[str, int]]:
     if mem is None:
         return ("container", 0)
     for i, ((shape, exp), g) in enumerate(zip(expected(case), mem)):
-        f = cmp_tensor(g, shape, exp)
+        f = cmp_tensor(g, shape, exp, _scalar_box(case["subs"][i]))
         if f:
             return (f, i)
     return None
@@ -255,6 +259,32 @@ def pick_dtypes(case: dict, salt: int, all_of_them: bool) -> List[List[str]]:
         if combos[1] == combos[0]:
             combos.pop()
     return combos
+
+
+# ----------------------------------------------------------------------------- observing real networks
+class observe_forward:
+    """Record the inputs and outputs of module.forward while the real code runs (AgileRL's evolvable modules call
+    forward() directly, so torch forward hooks never fire).  Pure observation: the original forward is called
+    unchanged and restored afterwards."""
+
+    def __init__(self, module):
+        self.module, self.inputs, self.outputs = module, [], []
+
+    def __enter__(self):
+        orig = self.module.forward
+
+        def fwd(*a, **k):
+            self.inputs.append(a[0] if a else None)
+            out = orig(*a, **k)
+            self.outputs.append(out)
+            return out
+
+        object.__setattr__(self.module, "forward", fwd)
+        return self
+
+    def __exit__(self, *exc):
+        object.__delattr__(self.module, "forward")
+        return False
 
 
 # ----------------------------------------------------------------------------- real agents
@@ -318,8 +348,7 @@ def check_prep_case(case: dict, idx: int, thorough: bool, with_agent: bool = Tru
         fails.append({"sig": f"{func}:{kind}:{t}:{lc}:{failure}",
                       "what": f"{func} on {space_descr(case)} input lead shape {tuple(case['lead'])} "
                               f"(normalize_images={norm}): {what}",
-                      "replay": {"case": {k: case[k] for k in ("kind", "subs", "lead", "norm", "x")},
-                                 "expected": case["out"], **rep}})
+                      "replay": {"check": "prep", "idx": idx, "thorough": thorough, "case": case, **rep}})
 
     def real_prep(obs, space):
         with warnings.catch_warnings():
@@ -329,6 +358,8 @@ def check_prep_case(case: dict, idx: int, thorough: bool, with_agent: bool = Tru
     for ndt, dtypes in enumerate(pick_dtypes(case, idx, thorough)):
         space = make_space(case, [d if s["k"] == "box" else None for s, d in zip(case["subs"], dtypes)])
         for rep in reps_for(case):
+            if rep == "npscalar" and dtypes[0] in ("uint16", "uint32", "uint64"):
+                continue            # torch.tensor() rejects these numpy scalars (arrays of them are fine); not a Python number
             obs = materialise(case, dtypes, rep)
             # --- preprocess_observation (function)
             try:
@@ -443,7 +474,7 @@ def check_homo_case(case: dict) -> List[dict]:
         fails.append({"sig": f"{func}:{'single-group' if len(set(case['grp'])) == 1 else 'two-groups'}:"
                              f"{'E1' if E == 1 else 'En'}:d{d}:{failure}",
                       "what": f"{func} with agents {ids} (composition {comp}), {E} envs, width {d}: {what}",
-                      "replay": {"case": case}})
+                      "replay": {"check": "homo", "case": case}})
 
     gid = ["a", "b"]
     for variant in (["2d"] + (["1d"] if d == 1 else [])):
@@ -500,14 +531,13 @@ def check_critic_case(case: dict) -> List[dict]:
     def fail(algo, failure, what):
         fails.append({"sig": f"stack_critic_observations:{'image' if img else 'vector'}:A{A}:{'B1' if B == 1 else 'Bn'}:{failure}",
                       "what": f"{algo}.stack_critic_observations, {A} agents, batch {B}, per-agent shape {shapes}: {what}",
-                      "replay": {"case": case}})
+                      "replay": {"check": "critic", "case": case}})
 
     for algo in ("maddpg", "matd3"):
         try:
             agent = ma_agent(algo, ids, obs_spaces)
         except Exception as ex:
-            fails.append({"sig": f"build:{algo}:{'image' if img else 'vector'}", "what": f"cannot build {algo}: {ex}", "replay": {"case": case}})
-            continue
+            raise RuntimeError(f"harness: cannot build {algo} for critic case {case}: {ex}") from ex
         obs = {a: torch.tensor(case["x"][i], dtype=torch.float32).reshape(shapes[i]) for i, a in enumerate(ids)}
         try:
             got = agent.stack_critic_observations(obs)
@@ -551,7 +581,7 @@ def check_ma_prep(case: dict, idx: int, algos=("maddpg", "ippo")) -> List[dict]:
     def fail(func, member, failure, what):
         fails.append({"sig": f"{func}:{case['kind']}:{tag(case['subs'][member])}:{lc}:{failure}",
                       "what": f"{func} with agents {ids} on {space_descr(case)} lead {tuple(case['lead'])}: {what}",
-                      "replay": {"case": {k: case[k] for k in ("kind", "subs", "lead", "norm", "x")}}})
+                      "replay": {"check": "ma_prep", "idx": idx, "algos": list(algos), "case": case}})
 
     obs = {a: obs_for(i) for i, a in enumerate(ids)}
     for algo in algos:
@@ -580,7 +610,7 @@ def check_ma_prep(case: dict, idx: int, algos=("maddpg", "ippo")) -> List[dict]:
                 if mem is None:
                     fail(func, 0, "container", f"agent {a} missing or wrong container: {_short(got)}")
                     break
-                bad = [(j, cmp_tensor(g, sh, v)) for j, (g, (sh, v)) in enumerate(zip(mem, exp_for(i)))]
+                bad = [(j, cmp_tensor(g, sh, v, _scalar_box(case["subs"][j]))) for j, (g, (sh, v)) in enumerate(zip(mem, exp_for(i)))]
                 bad = [b for b in bad if b[1]]
                 if bad:
                     fail(func, bad[0][0], bad[0][1], f"agent {a}: got {_short(got[a])}")
@@ -594,7 +624,7 @@ def check_ma_prep(case: dict, idx: int, algos=("maddpg", "ippo")) -> List[dict]:
                     break
                 for j, gm in enumerate(mem):
                     want = np.concatenate([exp_for(i)[j][1] for i in members], axis=0)
-                    f = cmp_tensor(gm, want.shape, want)
+                    f = cmp_tensor(gm, want.shape, want, _scalar_box(case["subs"][j]))
                     if f:
                         fail(func, j, "group-" + f, f"group {g}: got {_short(gm)}, expected rows (member, env) {want.reshape(-1).tolist()[:24]}")
                         break
@@ -603,14 +633,17 @@ def check_ma_prep(case: dict, idx: int, algos=("maddpg", "ippo")) -> List[dict]:
 
 # ----------------------------------------------------------------------------- learn-path batches (IPPO)
 def check_learn_batches(case: dict, idx: int) -> List[dict]:
-    """IPPO's learn path: per-agent lists of (env-vectorised) observations of a homogeneous group are turned
-    into one batch by concatenate_experiences_into_batches and then prepared for the network
-    (preprocess_observation).  The result must be a float tensor (rows, *network input shape) whose rows are the
-    prepared single observations, each exactly once, in (agent, step, env) or (step, agent, env) order."""
-    from agilerl.utils import algo_utils as au
+    """IPPO's learn path on a homogeneous group of two agents: the real IPPO.learn is run on T steps of E
+    environments whose observations are the case's (T, E) block (agent a_1 sees it time-reversed), and the tensor
+    the shared actor receives in the (single) minibatch is observed with a forward pre-hook.  It must be a float
+    tensor (2*T*E, *network input shape) whose rows are exactly the prepared single observations (as a multiset:
+    the minibatch is shuffled; the row order relative to the advantages is C17's subject)."""
+    import traceback
+
+    from gymnasium import spaces
 
     fails = []
-    if len(case["lead"]) != 2 or case["kind"] != "leaf":
+    if len(case["lead"]) != 2 or case["kind"] != "leaf" or case["lead"][0] < 2:
         return fails
     sub = case["subs"][0]
     T, E = case["lead"]
@@ -619,40 +652,57 @@ def check_learn_batches(case: dict, idx: int) -> List[dict]:
     norm = bool(case["norm"])
     block = leaf_array(sub, case["lead"], case["x"][0], dtype)              # (T, E, *nat)
     shape, exp = expected(case)[0]                                           # rows (t, e)
-    expTE = exp.reshape((T, E) + shape[1:])
-    agents = ["a_0", "a_1"]
-    # agent 1 sees the time-reversed block so that agents are distinguishable
+    ids = ["a_0", "a_1"]
+    try:
+        agent = ma_agent("ippo", ids, [space] * 2, normalize_images=norm, batch_size=1 << 20, update_epochs=1)
+    except Exception:
+        return fails                                                         # AgileRL cannot build IPPO for this space
     blocks = {"a_0": block, "a_1": block[::-1].copy()}
-    exps = {"a_0": expTE, "a_1": expTE[::-1]}
-    experiences = {a: [blocks[a][t] for t in range(T)] for a in agents}
-    orders = {
-        "agent-step-env": np.concatenate([exps[a].reshape((T * E,) + shape[1:]) for a in agents], axis=0),
-        "step-agent-env": np.concatenate([np.concatenate([exps[a][t] for a in agents], axis=0) for t in range(T)], axis=0),
-    }
+    want = np.concatenate([exp, exp], axis=0).astype(np.float64)             # multiset of rows
+    want_shape = (2 * T * E,) + shape[1:]
 
     def fail(failure, what):
         nat = sub["shape"]
         cls = "last-extent-1" if nat and nat[-1] == 1 else "general"
         fails.append({"sig": f"learn_batches:{tag(sub)}:{cls}:{failure}",
-                      "what": f"concatenate_experiences_into_batches + preprocess_observation on {describe(sub)}, "
-                              f"2 agents x {T} steps x {E} envs: {what}",
-                      "replay": {"case": {k: case[k] for k in ("kind", "subs", "lead", "norm", "x")}}})
+                      "what": f"IPPO.learn on {describe(sub)} observations, 2 homogeneous agents x {T} steps x {E} envs: {what}",
+                      "replay": {"check": "learn_batches", "idx": idx, "case": case}})
 
+    def per_agent(fn):
+        return {a: [fn(a, t) for t in range(T)] for a in ids}
+
+    experiences = (
+        per_agent(lambda a, t: blocks[a][t]),                                  # states
+        per_agent(lambda a, t: np.zeros((E, 1), dtype=np.int64)),              # actions (Discrete(3))
+        per_agent(lambda a, t: np.full((E, 1), -1.0, dtype=np.float32)),       # log-probs
+        per_agent(lambda a, t: np.ones((E,), dtype=np.float32)),               # rewards
+        per_agent(lambda a, t: np.zeros((E,), dtype=np.float32)),              # dones
+        per_agent(lambda a, t: np.zeros((E, 1), dtype=np.float32)),            # values
+        {a: blocks[a][T - 1] for a in ids},                                    # next states
+        {a: np.zeros((E,), dtype=np.float32) for a in ids},                    # next dones
+    )
     try:
-        with warnings.catch_warnings():
+        with warnings.catch_warnings(), observe_forward(agent.actors[0]) as ob:
             warnings.simplefilter("ignore")
-            batch = au.concatenate_experiences_into_batches(experiences, space)
-            got = au.preprocess_observation(batch, space, "cpu", norm)
+            np.random.seed(idx)
+            torch.manual_seed(idx)
+            agent.learn(experiences)
     except Exception as ex:
-        fail("raises", f"{type(ex).__name__}: {str(ex)[:160]}; expected shape {(2 * T * E,) + shape[1:]}")
+        where = " <- ".join(f"{f.name}:{f.lineno}" for f in traceback.extract_tb(ex.__traceback__)[-3:][::-1])
+        fail("raises", f"{type(ex).__name__}: {str(ex)[:160]} (at {where}); the network should have received shape {want_shape}")
         return fails
-    want_shape = (2 * T * E,) + shape[1:]
-    if not isinstance(got, torch.Tensor) or tuple(got.shape) != want_shape:
-        fail("shape", f"prepared batch has shape {tuple(getattr(got, 'shape', ()))}, expected {want_shape}")
+    seen = ob.inputs
+    if not seen or not isinstance(seen[0], torch.Tensor):
+        fail("shape", f"the shared actor received {type(seen[0]).__name__ if seen else 'nothing'}")
         return fails
-    g = got.numpy().astype(np.float64)
-    if not any(np.array_equal(g, o.astype(np.float64)) for o in orders.values()):
-        fail("rows", f"rows are not the prepared observations in (agent, step, env) or (step, agent, env) order: {g.reshape(-1).tolist()[:24]}")
+    got = seen[0].detach().cpu()
+    if tuple(got.shape) != want_shape or not got.is_floating_point():
+        fail("shape", f"the shared actor received a tensor of shape {tuple(got.shape)}, expected {want_shape}")
+        return fails
+    g = got.numpy().astype(np.float64).reshape(want_shape[0], -1)
+    w = want.reshape(want_shape[0], -1)
+    if not np.array_equal(g[np.lexsort(g.T[::-1])], w[np.lexsort(w.T[::-1])]):
+        fail("rows", f"rows are not the prepared observations (each once): {g.tolist()[:6]}")
     return fails
 
 
@@ -679,10 +729,10 @@ def check_vectorized_experiences(case: dict) -> List[dict]:
             if got != want:
                 fails.append({"sig": f"is_vectorized_experiences:{case['kind']}:{name}:value",
                               "what": f"is_vectorized_experiences({name} {space_descr(case)} block T={T},E={E}) = {got}",
-                              "replay": {"case": {k: case[k] for k in ("kind", "subs", "lead")}}})
+                              "replay": {"check": "vec_exp", "case": case}})
         except Exception as ex:
             fails.append({"sig": f"is_vectorized_experiences:{case['kind']}:{name}:raises-{type(ex).__name__}",
-                          "what": f"{type(ex).__name__}: {ex}", "replay": {"case": {k: case[k] for k in ("kind", "subs", "lead")}}})
+                          "what": f"{type(ex).__name__}: {ex}", "replay": {"check": "vec_exp", "case": case}})
     return fails
 
 
@@ -721,20 +771,26 @@ def check_consequence_dqn(case: dict, idx: int, default_config: bool = False, al
             if algo == "ppo":               # value estimates as get_action reports them; no greedy action
                 v = np.asarray(agent.get_action(obs)[3], dtype=np.float64).reshape(-1, 1)
                 return v, np.zeros(len(v), dtype=np.int64)
-            with torch.no_grad():
-                q = agent.actor(agent.preprocess_observation(obs)).detach().numpy().astype(np.float64)
-            act = np.asarray(agent.get_action(obs, epsilon=0.0)).reshape(-1)
+            # the q-values the agent computes while reporting its greedy action (observed, not recomputed)
+            with observe_forward(agent.actor) as ob:
+                act = np.asarray(agent.get_action(obs, epsilon=0.0)).reshape(-1)
+            q = ob.outputs[-1].detach().numpy().astype(np.float64)
+            q = q.reshape(len(act), -1)
         return q, act
 
     def fail(failure, what):
         fails.append({"sig": f"consequence:{algo}:{cfg}:{case['kind']}:{tg}:{failure}",
                       "what": f"{algo.upper()} ({cfg}) on {space_descr(case)}: {what}",
-                      "replay": {"case": {k: case[k] for k in ("kind", "subs", "lead", "norm", "x")}, "config": cfg}})
+                      "replay": {"check": "consequence", "algo": algo, "default_config": default_config, "idx": idx, "case": case}})
 
+    ref = {}
     try:
-        ref = {}
         for r in range(R):
             ref[r] = q_and_greedy(_rows_obs(case, dtypes, [r], batched=False))      # alone, unbatched
+    except Exception:
+        AGENT_STATS["unrunnable"] = AGENT_STATS.get("unrunnable", 0) + 1
+        return fails, False             # the network cannot even evaluate a single observation: not this property
+    try:
         if all(np.max(np.abs(ref[r][0] - ref[0][0])) <= 100 * TOL for r in range(1, R)):
             return fails, False            # network output insensitive to these observations: says nothing
         compositions = [[r] for r in range(R)]                                       # batch of one
@@ -758,7 +814,7 @@ def check_consequence_dqn(case: dict, idx: int, default_config: bool = False, al
                     fail("greedy-depends-on-batch", f"observation row {r} alone -> action {int(a0[0])}, inside batch {comp} -> {int(act[pos])}")
                     return fails, True
     except Exception as ex:
-        fail("raises", f"{type(ex).__name__}: {str(ex)[:200]}")
+        fail("batch-raises", f"single observations are evaluated, but a batch raises {type(ex).__name__}: {str(ex)[:200]}")
     return fails, True
 
 
@@ -789,7 +845,8 @@ def check_consequence_ma(seed: int, spaces_kind: str = "vector") -> Tuple[List[d
 
     def fail(algo, failure, what):
         fails.append({"sig": f"consequence:{algo}:{spaces_kind}:{failure}", "what": f"{algo} get_action with agents {ids}, obs {sp}: {what}",
-                      "replay": {"ids": ids, "space": repr(sp), "obs": {a: v.tolist() for a, v in obs.items()}}})
+                      "replay": {"check": "consequence_ma", "seed": seed, "spaces_kind": spaces_kind, "ids": ids, "space": repr(sp),
+                                 "obs": {a: v.tolist() for a, v in obs.items()}}})
 
     for algo in ("maddpg", "matd3", "ippo"):
         try:
@@ -797,8 +854,7 @@ def check_consequence_ma(seed: int, spaces_kind: str = "vector") -> Tuple[List[d
             acts = None if algo == "ippo" else [spaces.Box(-1, 1, (2,)) for _ in ids]
             agent = ma_agent(algo, ids, [sp] * 3, acts)
         except Exception as ex:
-            fails.append({"sig": f"build:{algo}:{spaces_kind}", "what": f"cannot build: {ex}", "replay": {}})
-            continue
+            raise RuntimeError(f"harness: cannot build {algo} for {spaces_kind} observations: {ex}") from ex
 
         def report(o):
             with warnings.catch_warnings():
@@ -813,8 +869,10 @@ def check_consequence_ma(seed: int, spaces_kind: str = "vector") -> Tuple[List[d
         try:
             ref = report(obs)
             n += 1
-            if np.max(np.abs(ref["a_0"] - ref["a_1"])) <= 100 * TOL or np.max(np.abs(ref["a_0"][0] - ref["a_0"][1])) <= 100 * TOL:
-                raise Vacuity(f"vacuity guard: {algo} network output does not distinguish the observations ({spaces_kind})")
+            allv = np.concatenate([ref[a].reshape(-1) for a in ("a_0", "a_1")])
+            if np.ptp(allv) <= 100 * TOL:           # the shared network maps every observation to the same report
+                INSENSITIVE.append(f"{algo}:{spaces_kind}")
+                continue
             # (1) the order of the agents in the observation dict
             for perm in (["a_1", "b_0", "a_0"], ["b_0", "a_0", "a_1"]):
                 got = report({a: obs[a] for a in perm})
@@ -849,8 +907,6 @@ def check_consequence_ma(seed: int, spaces_kind: str = "vector") -> Tuple[List[d
             bad = [a for a in ids if np.max(np.abs(got[a] - ref[a][perm])) > TOL]
             if bad:
                 fail(algo, "depends-on-env-order", f"permuting environments {perm} does not permute the reports of {bad}")
-        except Vacuity:
-            raise
         except Exception as ex:
             fail(algo, "raises", f"{type(ex).__name__}: {str(ex)[:200]}")
     return fails, n
